@@ -57,11 +57,13 @@ def gen_script(r, rounds=(1, 2), max_edits=7, names=None, odd=True, sessions=("s
         parent_texts = {p: set(t for t, _ in ls) for p, ls in tr.files.items()}
         for e in range(r.range(1, max_edits)):
             actor = r.weighted([(3, "H")] + [(4, s) for s in sessions])
+            inter = []
             if r.chance(1, 7):
                 path = f"new{tr.counter}.txt"
                 n = r.range(1, 4)
                 tr.new_file(r, path, n, actor)
                 d = ("new", path, n)
+                inter = [prefix_text(tr, path, 0, j, n) for j in range(1, n)]
             else:
                 path = r.pick(sorted(tr.files))
                 ls = tr.files[path]
@@ -70,6 +72,7 @@ def gen_script(r, rounds=(1, 2), max_edits=7, names=None, odd=True, sessions=("s
                     pos, n = r.range(0, len(ls)), r.range(1, 3)
                     tr.insert(r, path, pos, n, actor)
                     d = ("ins", path, pos, n)
+                    inter = [prefix_text(tr, path, pos, j, n) for j in range(1, n)]
                 elif kind == "odd":
                     pos = r.range(0, len(ls))
                     tr.counter += 1
@@ -99,11 +102,20 @@ def gen_script(r, rounds=(1, 2), max_edits=7, names=None, odd=True, sessions=("s
                     d = ("indent", path, pos)
             k = d[0] + ":" + ("ai" if actor != "H" else "human")
             kinds[k] = kinds.get(k, 0) + 1
-            ops.append(("edit", actor, path, tr.text(path), d))
+            ops.append(("edit", actor, path, tr.text(path), d, inter))
         ops.append(("commit", rnd, expected_note(tr, parent_texts),
                     {p: expected_blame(tr, p) for p in tr.files if tr.files[p]},
                     tr.snapshot(), {p: sorted(v) for p, v in parent_texts.items()}))
     return {"base": base, "ops": ops, "kinds": kinds, "final": tr.snapshot()}
+
+
+def prefix_text(tr, path, pos, j, n):
+    """text of `path` with only the first j of the n lines just inserted at pos"""
+    saved = tr.files[path]
+    tr.files[path] = saved[:pos + j] + saved[pos + n:]
+    t = tr.text(path)
+    tr.files[path] = saved
+    return t
 
 
 def descr(script):
@@ -111,7 +123,7 @@ def descr(script):
 
 
 def exec_script(sim, script, r=None, extra_human_cp=0, repeat_cp=0, noop_cmds=0, before_commit=None,
-                human_cp_chance=(1, 4)):
+                human_cp_chance=(1, 4), split_ai=False):
     """Runs the script.  Returns list of per-commit observations
     {"round", "note": sets, "blame": {path: {}}, "rc"} .
     Variant knobs (probabilities in 1/8ths, need r): extra human checkpoints after human edits,
@@ -120,9 +132,13 @@ def exec_script(sim, script, r=None, extra_human_cp=0, repeat_cp=0, noop_cmds=0,
     obs = []
     for o in script["ops"]:
         if o[0] == "edit":
-            _, actor, path, text, d = o
+            _, actor, path, text, d, inter = o
             if actor != "H":
                 sim.checkpoint_human([path])
+                if split_ai:
+                    for t in inter:      # the same agent edit delivered in several consecutive checkpoints
+                        sim.write(path, t)
+                        sim.checkpoint_ai(actor, [path], tool=TOOL)
             sim.write(path, text)
             if actor != "H":
                 sim.checkpoint_ai(actor, [path], tool=TOOL)
